@@ -303,11 +303,11 @@ example : selectTransitions exM exCfg exEnv (.user "Z") = .ok [] := by rfl
     configuration, history, queue, status, trace (so no action ran), error flag, counters. (The model
     has no context, timers or services of its own: their only trace is `act`/`#t` records and queue
     entries, all part of `St`.) -/
-theorem unhandled_is_noop (h : Hooks) (fl : Flavor) (m : Machine) (env : GEnv) (ev : Ev) (s : St)
-    (hsel : selectTransitions m s.cfg env ev = .ok []) : processEvent h fl m env ev s = s := by
+theorem unhandled_is_noop (h : Hooks) (fl : Flavor) (m : Machine) (u : UEnv) (ev : Ev) (s : St)
+    (hsel : selectTransitions m s.cfg (u.genv s.ctx ev.type) ev = .ok []) : processEvent h fl m u ev s = s := by
   simp only [processEvent, hsel, List.foldl_nil]
 
-example : processEvent hooksFlagged .sync exM exEnv (.user "Z") exS = exS :=
+example : processEvent (hooksFlagged exU exM) .sync exM exU (.user "Z") exS = exS :=
   unhandled_is_noop _ _ _ _ _ exS (by rfl)
 
 /-! ## 5. exactly the nominated transitions fire -/
@@ -315,22 +315,22 @@ example : processEvent hooksFlagged .sync exM exEnv (.user "Z") exS = exS :=
 /-- *Clause "exactly the nominated transitions fire … one whose source was exited by an earlier winner
     of the same step is skipped, and no other transition's actions run".* `processEvent` is the
     left-to-right execution of `firedOf … sel s`, a sub-list of the selected list. -/
-theorem fired_subset_selected (h : Hooks) (fl : Flavor) (m : Machine) (env : GEnv) (ev : Ev) (s : St)
-    (sel : List Cand) (hsel : selectTransitions m s.cfg env ev = .ok sel) :
-    processEvent h fl m env ev s =
+theorem fired_subset_selected (h : Hooks) (fl : Flavor) (m : Machine) (u : UEnv) (ev : Ev) (s : St)
+    (sel : List Cand) (hsel : selectTransitions m s.cfg (u.genv s.ctx ev.type) ev = .ok sel) :
+    processEvent h fl m u ev s =
         (firedOf h fl m ev (decide (sel.length > 1)) sel s).foldl
           (fun s c => execute h fl m ev (planTransition m s.cfg s.hist c) s) s ∧
       (firedOf h fl m ev (decide (sel.length > 1)) sel s).Sublist sel := by
   refine ⟨?_, firedOf_sublist h fl m ev _ sel s⟩
-  rw [processEvent_ok h fl m env ev s sel hsel, foldl_stepSel_eq]
+  rw [processEvent_ok h fl m u ev s sel hsel, foldl_stepSel_eq]
   rfl
 
 /-- for `X` both `t4` (a1 → Q, leaving `P`) and `t5` (on b1) are selected; executing `t4` exits `b1`, so
     `t5` is skipped and its action never runs -/
 example : tidsOf (selectTransitions exM exCfg exEnv (.user "X")) = some [4, 5] := by decide
-example : (firedOf hooksFlagged .sync exM (.user "X") true
+example : (firedOf (hooksFlagged exU exM) .sync exM (.user "X") true
     [⟨["P", "A", "a1"], t4⟩, ⟨["P", "B", "b1"], t5⟩] exS).map (·.t.tid) = [4] := by decide
-example : (processEvent hooksFlagged .sync exM exEnv (.user "X") exS).trace =
+example : (processEvent (hooksFlagged exU exM) .sync exM exU (.user "X") exS).trace =
     ["#t:m,m.Q", "leave@X"] := by decide
 
 /-- which ones: scanning the selected list, stop at a pending error; skip a candidate whose source is
@@ -343,10 +343,10 @@ theorem firedOf_cons (h : Hooks) (fl : Flavor) (m : Machine) (ev : Ev) (multi : 
       else c :: firedOf h fl m ev multi cs (execute h fl m ev (planTransition m s.cfg s.hist c) s) := rfl
 
 /-- a single selected transition is always executed (no stale-source test) -/
-theorem fired_single (h : Hooks) (fl : Flavor) (m : Machine) (env : GEnv) (ev : Ev) (s : St) (c : Cand)
-    (hsel : selectTransitions m s.cfg env ev = .ok [c]) (herr : s.err = none) :
-    processEvent h fl m env ev s = execute h fl m ev (planTransition m s.cfg s.hist c) s := by
-  rw [(fired_subset_selected h fl m env ev s [c] hsel).1]
+theorem fired_single (h : Hooks) (fl : Flavor) (m : Machine) (u : UEnv) (ev : Ev) (s : St) (c : Cand)
+    (hsel : selectTransitions m s.cfg (u.genv s.ctx ev.type) ev = .ok [c]) (herr : s.err = none) :
+    processEvent h fl m u ev s = execute h fl m ev (planTransition m s.cfg s.hist c) s := by
+  rw [(fired_subset_selected h fl m u ev s [c] hsel).1]
   simp [firedOf, herr]
 
 /-! ## 6. `can` -/
@@ -367,7 +367,7 @@ example : can exM exCfg exEnv (.user "Z") = false := by decide
 /-- a guard without implementation: `can` says `false` (the code swallows the exception) although
     delivering the event is not a no-op — it fails with `missingGuard` -/
 example : can exM exCfg exEnvMissing (.user "F") = false := by decide
-example : (processEvent hooksFlagged .sync exM exEnvMissing (.user "F") exS).err.isSome = true := by
+example : (processEvent (hooksFlagged exUMissing exM) .sync exM exUMissing (.user "F") exS).err.isSome = true := by
   decide
 
 /-- in terms of nominees -/
@@ -394,13 +394,13 @@ theorem can_iff_nominee (m : Machine) (cfg : List Path) (env : GEnv) (ev : Ev) (
     simp [this] at hsome
 
 /-- `can` false and selection not raising: delivering the event changes nothing -/
-theorem can_false_noop (h : Hooks) (fl : Flavor) (m : Machine) (env : GEnv) (ev : Ev) (s : St)
-    (sel : List Cand) (hsel : selectTransitions m s.cfg env ev = .ok sel)
-    (hcan : can m s.cfg env ev = false) : processEvent h fl m env ev s = s := by
+theorem can_false_noop (h : Hooks) (fl : Flavor) (m : Machine) (u : UEnv) (ev : Ev) (s : St)
+    (sel : List Cand) (hsel : selectTransitions m s.cfg (u.genv s.ctx ev.type) ev = .ok sel)
+    (hcan : can m s.cfg (u.genv s.ctx ev.type) ev = false) : processEvent h fl m u ev s = s := by
   unfold can at hcan
   rw [hsel] at hcan
   cases sel with
-  | nil => exact unhandled_is_noop h fl m env ev s hsel
+  | nil => exact unhandled_is_noop h fl m u ev s hsel
   | cons c cs => simp at hcan
 
 end XSM.C02
